@@ -331,6 +331,7 @@ def execute(plan: dict) -> dict:
             peer = w.peer_for(nb['peer_ip'])
             snap['rep'][nb['idx']] = {k: (RW.LOCAL if v[0] == 'self' else v[0], v[1]) for k, v in RW.reported_table(peer.neighbor, False).items()} if peer is not None else None
         snap['peer'] = {nb['idx']: (RW.peer_view(speakers[nb['idx']].established().table) if speakers[nb['idx']].established() else None) for nb in nbrs}
+        snap['attrs'] = {nb['idx']: (RW.attrs_mismatch(speakers[nb['idx']].established().table, variants, nb) if speakers[nb['idx']].established() else None) for nb in nbrs}
 
     def check_sync() -> None:
         # after the sync-mode loss: every command of the second stream must have exactly one terminal reply, and the
@@ -410,6 +411,9 @@ def judge(plan, cmds, snap, nbrs, variants) -> list[dict]:
         if pv is not None and pv != rep:
             d = RW.diff_tables(pv, rep, 'peer', 'adj-rib-out')
             out.append(viol('C14/peer-differs', f'neighbor {nb["peer_ip"]}: ' + '; '.join(d)))
+            return out
+        if snap.get('attrs', {}).get(nb['idx']):
+            out.append(viol('C14/attributes-differ-from-request', f'neighbor {nb["peer_ip"]}: {snap["attrs"][nb["idx"]]}'))
             return out
     return out
 
